@@ -8,6 +8,7 @@
 (*   pair    two goroutines, one request each (all unordered pairs)        *)
 (*   seq     one goroutine, two requests in sequence (all ordered pairs)   *)
 (*   pairsel pairs of requests from TripleReqs only                        *)
+(*   pairwith / seqwith  pairs / sequences with a request from TripleReqs  *)
 (*   triple  three goroutines, one request each, requests from TripleReqs  *)
 (*   pairseq two goroutines, the first runs two requests (from TripleReqs) *)
 (* TLC explores every interleaving of the labelled steps.  It prints       *)
@@ -45,6 +46,14 @@ MixSet(Modes) ==
         THEN {Mk(<< <<LazyReqSeq[p[1]]>>, <<LazyReqSeq[p[2]]>> >>) :
                 p \in {p \in (1..NReq) \X (1..NReq) : p[1] <= p[2] /\ InTriple(p[1]) /\ InTriple(p[2])}}
         ELSE {})
+  \cup (IF "pairwith" \in Modes
+        THEN {Mk(<< <<LazyReqSeq[p[1]]>>, <<LazyReqSeq[p[2]]>> >>) :
+                p \in {p \in (1..NReq) \X (1..NReq) : p[1] <= p[2] /\ (InTriple(p[1]) \/ InTriple(p[2]))}}
+        ELSE {})
+  \cup (IF "seqwith" \in Modes
+        THEN {Mk(<< <<LazyReqSeq[p[1]], LazyReqSeq[p[2]]>> >>) :
+                p \in {p \in (1..NReq) \X (1..NReq) : InTriple(p[1]) \/ InTriple(p[2])}}
+        ELSE {})
   \cup (IF "seq" \in Modes
         THEN {Mk(<< <<LazyReqSeq[p[1]], LazyReqSeq[p[2]]>> >>) : p \in (1..NReq) \X (1..NReq)}
         ELSE {})
@@ -66,6 +75,8 @@ ProgOf(m) == [g \in G |-> VisitsOf(m[g])]
 QuickPlan == [plain |-> {"single", "pair", "seq"}, godir |-> {"single", "seq", "pairsel"}, registered |-> {"single", "seq", "pairsel"}]
 FullPlan == [w \in DOMAIN LazyWorlds |-> {"single", "pair", "seq", "triple", "pairseq"}]
 PairPlan == [w \in DOMAIN LazyWorlds |-> {"single", "pair", "seq"}]
+\* for M(K) in the quick tier: the mixes with a request whose outcome M(K) can change
+KQuickPlan == [plain |-> {"single", "pairwith", "seqwith"}, godir |-> {"single"}, registered |-> {"single"}]
 SmallPlan == [plain |-> {"pairsel", "seq"}]
 TriplePlan == [plain |-> {"triple", "pairseq"}, registered |-> {"triple", "pairseq"}]
 
